@@ -353,6 +353,10 @@ package fs
 //@   loop 1 invariant copier: c != nil && c.inodes != nil
 //@   at call MkdirAll: ensure_dst: arg0 == fs.RootPath(dstRoot, ite(filepath.Split#1(dst) != "" && filepath.Split#1(dst) != ".", filepath.Split(dst), dst)) && ite(filepath.Split#1(dst) != "" && filepath.Split#1(dst) != ".", filepath.Split(dst), dst) != ""
 //@   at call newCopier: root: arg0 == dstRoot
+// every option reaches the copier unchanged
+//@   at call newCopier: options_plumbed: arg1 == ci.Chown && arg2 == ci.Utime && arg3 == ci.Mode && arg8 == ci.AlwaysReplaceExistingDestPaths && arg9 == ci.ChangeFunc && len(arg6) == len(ci.IncludePatterns) && ref(arg6) == ref(ci.IncludePatterns) && ref(arg7) == ref(ci.ExcludePatterns)
+//@   at call copier.prepareTargetDir: contents_mode: arg4 == ci.CopyDirContents
+//@   at call rootPath: follow_option: arg2 == ci.FollowLinks
 //@   at call rootPath: src_in_root: arg0 == srcRoot
 //@   at call copier.prepareTargetDir: dst_in_root: arg3 == fs.RootPath(dstRoot, filepath.Clean(dst))
 //@   at call copier.copy: start: arg3 == "" && arg5 == false
